@@ -118,10 +118,42 @@ def certify(ctx, cases, stats):
     return who
 
 
+def affine_cases(ctx, stats):
+    """Unpartitioned Einsums with affine index expressions (O[q] = I[a*q+b*s]*F[s] and variants with further operands,
+    two tensors read through the same expression, sums of convolutions) under any loop order; keyed like C04."""
+    from props import c04
+    rng = ctx.rng
+    out = []
+    stats["affine"] = 0
+    for _ in range(70 if ctx.quick() else 700):
+        es = specgen.gen_affine_einsum(rng)
+        mp, kind, syms = specgen.affine_mapping(rng, es, part_p=0.0)
+        try:
+            spec = runlib.Spec(specgen.yaml_of(es["decl"], [es["expr"]], mp))
+            text = spec.compile()
+        except Exception as e:
+            k = type(e).__name__ + ": " + str(e)[:60]
+            stats["compile_errors"][k] = stats["compile_errors"].get(k, 0) + 1
+            continue
+        stats["affine"] += 1
+        for j in range(2 if ctx.quick() else 3):
+            ext = specgen.affine_extents(rng, es)
+            data, scal = runlib.gen_inputs(spec, ext, rng, density=rng.choice([1.0, 0.8, 0.5]))
+            out.append(execlib.Case(spec, text, ext, data, scal, extra_ints=syms,
+                                    meta={"affine": True, "flags": c04.flags_of(text, mp, es["out"]), "shape": es["shape"]}))
+    return out
+
+
 def run(ctx):
     specs = population(ctx)
     cases, stats = make_cases(ctx, specs, 2 if ctx.quick() else 3)
-    execlib.evaluate(cases, "c01")
+    aff = affine_cases(ctx, stats)
+    execlib.evaluate(cases + aff, "c01")
+    from props import c04
+    for c in aff:
+        if not (c.result["status"] == "RAN" and c.result["out"] == "OK"):
+            key, what = c04.key_of(c)
+            ctx.violation(key, what, c.replay())
     who = certify(ctx, cases, stats)
     # a program the validator rejects is a broken proof obligation: its executions are the failing-input search
     rejected = {id(c): c for c, _, _, _ in who if not c.certified}
@@ -144,7 +176,7 @@ def run(ctx):
         "evaluations": len(cases),
         "distinct_nontrivial": distinct,
         "population": stats, "obligations_note": "programs certified by nest_okb: %d" % stats["tval"]["certified"],
-        "rule": "random plain Einsums (1-3/4 ranks, 1-2/3 terms, 1-2/3 factors, take(), scalars, rank-0 tensors, any output sub-list) x random rank orders x "
+        "rule": "(plus unpartitioned index-math Einsums, any loop order) random plain Einsums (1-3/4 ranks, 1-2/3 terms, 1-2/3 factors, take(), scalars, rank-0 tensors, any output sub-list) x random rank orders x "
                 "random loop orders; each distinct emitted program executed in coqc on 2-3 random sparse inputs (extents 1-4, densities 1/.6/.3); "
                 "non-trivial = distinct emitted text",
         "samples": [{"yaml": cases[i].spec.yaml, "extents": cases[i].extents, "result": cases[i].raw} for i in (0, len(cases) // 2)],
